@@ -31,6 +31,7 @@ type Oblig struct {
 	output  string
 	model   map[string]string
 	expectFail bool // vacuity probe: must NOT be provable
+	without []string // tags of assumptions left out of this obligation's context (always sound)
 }
 
 type engineErr struct{ msg string }
@@ -87,6 +88,7 @@ func (u *Unit) assume(guard, fact *Term) {
 	}
 	u.assumed[a.id] = true
 	u.assumptions = append(u.assumptions, a)
+	u.assumeTags = append(u.assumeTags, u.curTag)
 }
 
 func (u *Unit) oblige(class, label string, st *State, goal *Term, pos token.Pos, text string) {
@@ -105,7 +107,7 @@ func (u *Unit) oblige(class, label string, st *State, goal *Term, pos token.Pos,
 		}
 		u.labelSeen[fmt.Sprintf("%s/%s/%s", u.name, class, label)]++
 	}
-	o := &Oblig{name: name, class: class, label: label, guard: st.guard, goal: goal, nassume: len(u.assumptions), text: text}
+	o := &Oblig{name: name, class: class, label: label, guard: st.guard, goal: goal, nassume: len(u.assumptions), text: text, without: u.curWithout}
 	if pos.IsValid() {
 		o.pos = u.eng.fset.Position(pos)
 	}
@@ -115,8 +117,11 @@ func (u *Unit) oblige(class, label string, st *State, goal *Term, pos token.Pos,
 	u.obligs = append(u.obligs, o)
 	// after the obligation, the fact may be assumed on this path (postconditions
 	// and frame conditions stay independent so that each failure is reported)
-	if class != "post" && class != "frame" {
+	if class != "post" && class != "frame" && class != "inv-preserve" && class != "variant" {
+		save := u.curTag
+		u.curTag = label
 		u.assume(st.guard, goal)
+		u.curTag = save
 	}
 }
 
@@ -542,11 +547,28 @@ func (u *Unit) term(fr *Frame, v ssa.Value) *Term {
 // freshOfType makes an unconstrained value of Go type t (with its typing facts).
 func (u *Unit) freshOfType(hint string, t types.Type, guard *Term) *Term {
 	v := u.m.tb.Fresh(hint, u.m.sortOf(t))
-	u.assumeTyping(guard, v, t)
+	u.assumeTyping(guard, v, t, nil)
 	return v
 }
 
-func (u *Unit) assumeTyping(guard *Term, v *Term, t types.Type) {
+// freshOfTypeAt: as freshOfType, with the references it holds allocated in st.
+func (u *Unit) freshOfTypeAt(st *State, hint string, t types.Type) *Term {
+	v := u.m.tb.Fresh(hint, u.m.sortOf(t))
+	u.assumeTyping(st.guard, v, t, st)
+	return v
+}
+
+// assumeTyping: the typing invariant of a value of Go type t; with a state, the
+// references it holds are allocated in that state (memory safety).
+func (u *Unit) assumeTyping(guard *Term, v *Term, t types.Type, st *State) {
+	if u.quiet || v.bound {
+		return
+	}
+	allocd := func(ref *Term) {
+		if st != nil {
+			u.assume(guard, u.m.tb.Or(u.m.tb.Eq(ref, u.m.tb.Int(0)), u.m.tb.Select(u.allocSet(st), ref)))
+		}
+	}
 	if _, ok := t.(*types.TypeParam); ok {
 		u.assume(guard, u.m.SeqWF(v))
 		return
@@ -560,11 +582,15 @@ func (u *Unit) assumeTyping(guard *Term, v *Term, t types.Type) {
 		}
 	case *types.Slice:
 		u.assume(guard, u.m.SliceWF(v))
-	case *types.Pointer, *types.Map, *types.Signature, *types.Chan:
+		allocd(u.m.SliceRef(v))
+	case *types.Pointer, *types.Map:
+		u.assume(guard, u.m.tb.Le(u.m.tb.Int(0), v))
+		allocd(v)
+	case *types.Signature, *types.Chan:
 		u.assume(guard, u.m.tb.Le(u.m.tb.Int(0), v))
 	case *types.Struct:
 		for i := 0; i < tt.NumFields(); i++ {
-			u.assumeTyping(guard, u.m.StructField(v, t, i), tt.Field(i).Type())
+			u.assumeTyping(guard, u.m.StructField(v, t, i), tt.Field(i).Type(), st)
 		}
 	}
 }
@@ -714,16 +740,35 @@ func (u *Unit) zeroVal(t types.Type) Val {
 	return u.m.Zero(t)
 }
 
+// Allocation is modelled by a ghost set ALLOC (an array ref -> Bool kept with
+// the heap): a fresh reference is one that is not in the set at the moment of
+// allocation, so it differs from every reference that exists at that moment —
+// including those allocated by earlier loop iterations or by callees.
+const allocHeapKey = "ALLOC"
+
+func (u *Unit) allocSet(st *State) *Term { return u.heapGet(st, allocHeapKey, SArr(SInt, SBool)) }
+func (u *Unit) allocSet0() *Term       { return u.m.tb.Const("H_ALLOC@0", SArr(SInt, SBool)) }
+func (u *Unit) isAlloc0(r *Term) *Term { return u.m.tb.Select(u.allocSet0(), r) }
+
 func (u *Unit) freshRef(st *State, hint string) *Term {
 	tb := u.m.tb
 	r := tb.Fresh("ref_"+hint, SInt)
-	u.m.UF("Alloc0", SBool, SInt)
-	u.assume(tb.True(), tb.And(tb.Lt(tb.Int(0), r), tb.Not(tb.App("Alloc0", SBool, r))))
-	for _, o := range u.freshRefs {
-		u.assume(tb.True(), tb.Not(tb.Eq(o, r)))
+	al := u.allocSet(st)
+	u.assume(st.guard, tb.And(tb.Lt(tb.Int(0), r), tb.Not(tb.Select(al, r))))
+	if !u.quiet {
+		u.heapSet(st, allocHeapKey, tb.Store(al, r, tb.True()))
 	}
-	u.freshRefs = append(u.freshRefs, r)
 	return r
+}
+
+// allocGrows: allocation sets only grow (assumed whenever the set is havocked).
+func (u *Unit) allocGrows(guard, before, after *Term) {
+	if before == after {
+		return
+	}
+	tb := u.m.tb
+	r := tb.BoundVar("r", SInt)
+	u.assume(guard, tb.Forall([]*Term{r}, tb.Implies(tb.Select(before, r), tb.Select(after, r))))
 }
 
 func (u *Unit) nilCheck(st *State, ref *Term, pos token.Pos) {
